@@ -140,6 +140,7 @@ def install() -> None:
     _orig['_run'] = Peer._run
     _orig['_main'] = Peer._main
     _orig['_read_open'] = Peer._read_open
+    _orig['_read_ka'] = Peer._read_ka
 
     def change(self: FSM, state: Any) -> FSM:
         rig = CUR
@@ -239,6 +240,17 @@ def install() -> None:
             if rig is not None:
                 rig.in_read_open = False
 
+    async def _read_ka(self: Peer) -> Any:
+        rig = CUR
+        if rig is not None and self is rig.peer:
+            rig.in_read_ka = True
+        try:
+            return await _orig['_read_ka'](self)
+        finally:
+            if rig is not None:
+                rig.in_read_ka = False
+
+    Peer._read_ka = _read_ka  # type: ignore[method-assign]
     FSM.change = change  # type: ignore[method-assign]
     Connection.close = close  # type: ignore[method-assign]
     Connection.writer_async = writer  # type: ignore[method-assign]
@@ -435,6 +447,9 @@ DEFAULT_CFG = {
     'routes': 0,  # configured routes (one UPDATE each)
     'parse': True,  # received UPDATEs are decoded (api receive-update parsed)
     'graceful': False,  # graceful-restart capability
+    'api_changes': True,  # api neighbor-changes: up / down / connected go to the API process
+    'api_forward': False,  # api receive { parsed; open; update; notification; keepalive; refresh; operational; }
+    'api_fsm': False,  # api fsm: every FSM.change goes to the API process
     'refresh': True,  # route-refresh capability configured (outgoing ROUTE-REFRESH allowed)
     'extended': False,  # extended-message capability (False: maximum message size stays 4096)
 }
@@ -460,6 +475,7 @@ class SessionRig:
         self.in_run = False
         self.in_main = False
         self.in_read_open = False
+        self.in_read_ka = False
         self.nconn = 0
         self.remote_socks: dict[int, socket.socket] = {}
         self.remote_open: dict[int, bool] = {}
@@ -490,11 +506,15 @@ class SessionRig:
         self.cfg_obj, n = sessions.make_config(local_as=65000, peer_as=65001, local_address='127.0.0.1', peer_address='127.0.0.1')
         n.hold_time = type(n.hold_time)(self.cfg['hold'])
         n.api = ParseAPI.flatten({})
-        n.api['neighbor-changes'] = True
-        n.api['fsm'] = True
+        n.api['neighbor-changes'] = bool(self.cfg['api_changes'])
+        n.api['fsm'] = bool(self.cfg['api_fsm'])
         if self.cfg['parse']:
             n.api['receive-update'] = True
             n.api['receive-parsed'] = True
+        if self.cfg['api_forward']:
+            n.api['receive-parsed'] = True
+            for kind in ('open', 'update', 'notification', 'keepalive', 'refresh', 'operational'):
+                n.api[f'receive-{kind}'] = True
         if self.cfg['graceful']:
             from exabgp.bgp.neighbor.capability import GracefulRestartConfig
 
@@ -511,11 +531,27 @@ class SessionRig:
         n.routes = list(routes)
         for r in routes:
             n.rib.outgoing.add_to_rib(r)
+        from exabgp.reactor.api.processes import ProcessError
+
+        self.api_dead = False
+
+        def alive(what: str = '') -> None:
+            # event `apiDies`: the API process is gone, every write to it raises ProcessError
+            if self.api_dead:
+                raise ProcessError('the API process is gone')
+            if what:
+                self._api(what)
+
         reactor = MagicMock()
-        reactor.processes.up = lambda nb: self._api('up')
-        reactor.processes.down = lambda nb, reason='': self._api('down')
-        reactor.processes.connected = lambda nb: None
-        reactor.processes.fsm = lambda nb, fsm: None
+        reactor.processes.up = lambda nb: alive('up')
+        reactor.processes.down = lambda nb, reason='': alive('down')
+        reactor.processes.connected = lambda nb: alive()
+        reactor.processes.fsm = lambda nb, fsm: alive()
+        reactor.processes.message = lambda *a, **k: alive()
+        reactor.processes.notification = lambda *a, **k: alive()
+        reactor.processes.packets = lambda *a, **k: alive()
+        reactor.processes.negotiated = lambda *a, **k: alive()
+        reactor.processes.signal = lambda *a, **k: alive()
         reactor.processes.broken = lambda nb: False
         self.reactor = reactor
         self.peer = Peer(n, reactor)
@@ -678,8 +714,14 @@ class SessionRig:
             if self.connect_fut is not None and not self.connect_fut.done():
                 self.connect_fut.set_result(False)
         elif k == 'incoming':
+            from exabgp.reactor.api.processes import ProcessError
+
             inc, cid = self.new_incoming()
-            res = peer.handle_connection(inc)
+            try:
+                res = peer.handle_connection(inc)
+            except ProcessError:
+                # out of Protocol.accept (processes.connected) / FSM.change: the listener's generator dies, the connection is dropped
+                res = 'process-error'
             if res is not None:
                 # Listener.new_connections treats the returned generator as a flag and drops it
                 self.emit(f'reject {cid}')
@@ -722,20 +764,27 @@ class SessionRig:
         elif k == 'holdExpired':
             if min(self.cfg['hold'], self.cfg['peer_hold']) == 0:
                 pass  # negotiated hold time 0: there is no timer
-            elif self.in_main or (self.in_run and self.peer.fsm.state == FSM.OPENCONFIRM and self.reading is not None):
+            elif self.in_main or self.in_read_ka:
                 hold = min(self.cfg['hold'], self.cfg['peer_hold'])
-                was_main = self.in_main
-                await self.advance(hold + 3.0, lambda: (was_main and not self.in_main) or not self.in_run, step=0.05)
+                was_main, was_ka = self.in_main, self.in_read_ka
+                await self.advance(hold + 3.0, lambda: (was_main and not self.in_main) or (was_ka and not self.in_read_ka) or not self.in_run, step=0.05)
         elif k == 'tick':
             if self.in_main and self.reading is not None:
                 target = self.read_calls + 1
                 await self.advance(0.3, lambda: self.read_calls >= target or not self.in_main, step=0.01)
+        elif k == 'apiDies':
+            self.api_dead = True
         elif k == 'teardown':
             peer.teardown(int(ev[1]))
         elif k == 'reestablish':
             peer.reestablish()
         elif k == 'stop':
-            peer.shutdown()
+            from exabgp.reactor.api.processes import ProcessError
+
+            try:
+                peer.shutdown()
+            except ProcessError:
+                pass  # out of FSM.change (api fsm): reactor.shutdown() dies there
         elif k == 'queueRefresh':
             from exabgp.bgp.message.refresh import RouteRefresh
             from exabgp.protocol.family import SAFI
